@@ -581,6 +581,67 @@ pub fn run(tier: Tier) -> i32 {
             rep.fail(k, r);
         }
     }
+    // ---- append / scan grid: every inserted row is visible exactly once, whatever the batch size (1..8192), the
+    // partition count and the number of rows relative to the 2048-row stored chunk; statements in sequence
+    // (CTAS, then two INSERT ... SELECT appends landing in a partly filled chunk)
+    let sizes: Vec<usize> = if tier.is_thorough() { vec![0, 1, 2047, 2048, 2049, 4096, 4097, 6000, 8192, 8193, 20000] } else { vec![1, 2049, 4097, 8192, 20000] };
+    let cfgs: Vec<(usize, usize)> = if tier.is_thorough() { vec![(1, 1), (1, 100), (1, 2048), (1, 4096), (1, 6000), (1, 8192), (2, 8192), (3, 5000), (8, 8192), (4, 2048)] } else { vec![(1, 8192), (1, 6000), (2, 4096), (3, 100), (1, 2048)] };
+    let grid: Vec<(usize, usize, usize)> = sizes.iter().flat_map(|n| cfgs.iter().map(move |(p, b)| (*n, *p, *b))).filter(|(n, _, b)| !(*b == 1 && *n > 4097)).collect();
+    let gres = par_run(grid.len(), Driver::new, |d, i| {
+        let mut v: Vec<(String, Replay)> = Vec::new();
+        *d = Driver::new();
+        let (n, p, b) = grid[i];
+        let mut steps: Vec<(usize, String)> = Vec::new();
+        let mut run = |d: &mut Driver, sql: &str, steps: &mut Vec<(usize, String)>| {
+            steps.push((0, sql.to_string()));
+            d.q(sql)
+        };
+        let _ = run(d, &format!("SET partitions TO {p}"), &mut steps);
+        let _ = run(d, &format!("SET batch_size TO {b}"), &mut steps);
+        let sum = |lo: i128, hi: i128| (lo + hi) * (hi - lo + 1) / 2;
+        let n_i = n as i128;
+        let stmts = [
+            (format!("CREATE TEMP TABLE g AS SELECT a, CAST(a AS TEXT) AS s FROM generate_series(1, {n}) q(a)"), n_i),
+            (format!("INSERT INTO g SELECT a + {n}, CAST(a + {n} AS TEXT) FROM generate_series(1, {n}) q(a)"), n_i),
+            ("INSERT INTO g SELECT a + 1000000, s FROM g".to_string(), 2 * n_i),
+        ];
+        let mut expect_rows = 0i128;
+        let mut expect_sum = 0i128;
+        for (k, (sql, cnt)) in stmts.iter().enumerate() {
+            let o = run(d, sql, &mut steps);
+            match k {
+                0 => {
+                    expect_rows = n_i;
+                    expect_sum = if n > 0 { sum(1, n_i) } else { 0 };
+                }
+                1 => {
+                    expect_rows = 2 * n_i;
+                    expect_sum = if n > 0 { sum(1, 2 * n_i) } else { 0 };
+                }
+                _ => {
+                    expect_sum = 2 * expect_sum + 1_000_000 * expect_rows;
+                    expect_rows *= 2;
+                }
+            }
+            let reported_ok = matches!(&o, Outcome::Rows(r) if r.rows.first().and_then(|x| x.first()).and_then(|v| v.as_int()) == Some(*cnt));
+            let c = run(d, "SELECT count(*), count(DISTINCT a), coalesce(sum(a), CAST(0 AS BIGINT)), count(DISTINCT s) FROM g", &mut steps);
+            let distinct_s = if k == 2 { expect_rows / 2 } else { expect_rows };
+            let want = vec![Val::Int(expect_rows), Val::Int(expect_rows), Val::Int(expect_sum), Val::Int(distinct_s)];
+            let content_ok = matches!(&c, Outcome::Rows(r) if r.rows.first().map(|x| x.iter().map(|v| Val::Int(v.as_int().unwrap_or(-1))).collect::<Vec<_>>()) == Some(want.clone()));
+            if !reported_ok || !content_ok {
+                let class = outcome_fail_class(&o).or_else(|| outcome_fail_class(&c)).unwrap_or_else(|| if reported_ok { "appended-rows-wrong".into() } else { "reported-count-wrong".into() });
+                v.push((format!("C14|{class}|append-grid:stmt{k}"), Replay { check: "C14".into(), steps: steps.clone(), expected: format!("{cnt} rows reported; count, count(DISTINCT a), sum(a), count(DISTINCT s) = {want:?}"), observed: format!("{} / {}", o.brief(), c.brief()), note: format!("n={n} P={p} B={b}"), ..Default::default() }));
+                break;
+            }
+        }
+        v
+    });
+    for fs in gres {
+        transitions += 6;
+        for (k, r) in fs {
+            rep.fail(k, r);
+        }
+    }
     rep.cov("states", json!(states));
     rep.cov("transitions", json!(transitions));
     rep.cov("traces_validated_against_impl", json!(transitions));
